@@ -402,6 +402,7 @@ func runNewestWins(c *core.Ctx) {
 	fr := an.SymFrame(evPath+".CreatedAt", oldPath+".CreatedAt")
 	present := func(p an.Path) bool {
 		for _, cd := range p.Conds() {
+			cd = an.NormCond(cd) // `!exists` taken false is `exists` taken true
 			if an.PathOf(cd.V) == "ok("+oldPath+")" && cd.True {
 				return true
 			}
